@@ -453,10 +453,11 @@ def contracts():
                 continue
             cs.append(ReplaceInit(spelling, valkind))
     cs += [JoinArguments(), ArgumentsFor()]
-    from contracts import c13_ext, c13_runtime, c13_dag
+    from contracts import c13_ext, c13_runtime, c13_dag, c13_degree
     cs += c13_ext.contracts()
     cs += c13_runtime.contracts()
     cs += c13_dag.contracts()
+    cs += c13_degree.contracts()
     return cs
 
 
